@@ -15,7 +15,7 @@ use rand_chacha::ChaCha8Rng;
 
 use mzv::engines::catalogue::OpSpec;
 
-use super::entry::{big, fe, p, two_pow, BinOp, CmpOp, Entry, EqOp, Kind, Ty, V, VEC_RESIZES, VEC_SHAPES};
+use super::entry::{big, fe, p, two_pow, BinOp, CmpOp, Entry, EqOp, Kind, Src, Step, Ty, V, VEC_RESIZES, VEC_SHAPES};
 
 fn f(n: u64) -> F {
     F::from(n)
@@ -262,7 +262,243 @@ pub fn catalogue(thorough: bool) -> Vec<Kind> {
 
     // ---- MapInstructions ----
     c.extend([MapGet, MapInsert]);
+
+    provenance_entries(t, &mut c);
+    composition_entries(t, &mut c);
     c
+}
+
+/// a fixed "random" constant (deterministic, large, no structure)
+fn rc() -> F {
+    fe(&(two_pow(200) * b(0x9e37) + two_pow(101) * b(0x79b9) + b(0x7f4a7c15)))
+}
+
+/// (A) operand provenance: operands taken from constant cells (`assign_fixed`, cached by value
+/// and reused), combined with the operation's own multiplicative / additive constants
+fn provenance_entries(t: bool, c: &mut Vec<Kind>) {
+    use Kind::*;
+    let fx = |inner: Kind, consts: Vec<Option<V>>| Fixed { inner: Box::new(inner), consts };
+    let w = || None::<V>;
+    let n = |x: F| Some(V::N(x));
+    let (zero, one, m1, two, r) = (F::ZERO, F::ONE, -F::ONE, f(2), rc());
+    let bt = |x: bool| Some(V::B(x));
+    let by = |x: u8| Some(V::Y(x));
+    // multiplications: constant-one / constant-zero fast paths with and without a multiplying constant
+    for k in [Some(f(5)), None] {
+        for cst in [one, zero, m1, two, r] {
+            if !t && k.is_none() && (cst == m1 || cst == zero) {
+                continue;
+            }
+            c.push(fx(Mul(k), vec![w(), n(cst)]));
+            c.push(fx(Mul(k), vec![n(cst), w()]));
+        }
+    }
+    c.push(fx(Mul(Some(f(7))), vec![n(one), n(one)]));
+    c.push(fx(Mul(Some(-f(3))), vec![n(one), n(two)]));
+    c.push(fx(Mul(None), vec![n(one), n(one)]));
+    // additions / subtractions / divisions
+    c.extend([
+        fx(Add, vec![w(), n(zero)]),
+        fx(Add, vec![w(), n(one)]),
+        fx(Add, vec![n(one), n(one)]),
+        fx(Add, vec![n(r), w()]),
+        fx(Sub, vec![w(), n(one)]),
+        fx(Sub, vec![n(zero), w()]),
+        fx(Sub, vec![n(one), n(one)]),
+        fx(Div, vec![w(), n(one)]),
+        fx(Div, vec![n(one), w()]),
+        fx(Div, vec![w(), n(m1)]),
+        fx(Div, vec![n(two), n(two)]),
+    ]);
+    c.extend([
+        fx(AddAndMul([f(2), f(3), f(5), f(7), f(11)]), vec![n(one), w(), n(one)]),
+        fx(AddAndMul([f(2), f(3), f(5), f(7), f(11)]), vec![w(), n(one), n(zero)]),
+        fx(AddAndMul([f(2), f(3), f(5), f(7), f(11)]), vec![n(two), n(two), w()]),
+        fx(AddAndMul([F::ZERO, F::ZERO, F::ZERO, F::ZERO, f(9)]), vec![n(one), w(), n(one)]),
+        fx(LinComb { coefs: vec![F::ONE, -F::ONE, fe(&(two_pow(64) + b(1)))], k: f(7) }, vec![n(one), w(), n(one)]),
+        fx(LinComb { coefs: vec![f(3), f(5), -f(2)], k: F::ZERO }, vec![n(zero), w(), n(m1)]),
+        fx(LinComb { coefs: vec![f(4), f(6)], k: f(1) }, vec![n(two), n(one)]),
+    ]);
+    // unary operations on constant cells
+    c.extend([
+        fx(Inv, vec![n(one)]),
+        fx(Inv, vec![n(m1)]),
+        fx(Inv, vec![n(two)]),
+        fx(Inv0, vec![n(zero)]),
+        fx(Inv0, vec![n(two)]),
+        fx(Neg, vec![n(one)]),
+        fx(Square, vec![n(m1)]),
+        fx(Pow(5), vec![n(two)]),
+        fx(IsZero, vec![n(zero)]),
+        fx(IsZero, vec![n(one)]),
+        fx(MulConst(f(3)), vec![n(one)]),
+        fx(AddConst(f(3)), vec![n(m1)]),
+        fx(IsEqFixed { op: EqOp::Eq, c: V::N(f(5)) }, vec![n(f(5))]),
+        fx(IsEqFixed { op: EqOp::Neq, c: V::N(f(5)) }, vec![n(one)]),
+        fx(Sgn0, vec![n(one)]),
+        fx(IsSquare, vec![n(one)]),
+    ]);
+    // control flow between constant cells
+    c.extend([
+        fx(Select(Ty::N), vec![w(), n(one), n(zero)]),
+        fx(Select(Ty::N), vec![w(), n(r), n(r)]),
+        fx(Select(Ty::N), vec![bt(true), w(), w()]),
+        fx(Select(Ty::N), vec![bt(false), w(), n(one)]),
+        fx(Select(Ty::B), vec![w(), bt(true), bt(false)]),
+        fx(Select(Ty::Y), vec![w(), by(0), by(255)]),
+        fx(CondSwap(Ty::N), vec![w(), n(one), w()]),
+        fx(CondSwap(Ty::N), vec![bt(true), w(), n(zero)]),
+        fx(CondAssertEqual(Ty::N), vec![w(), n(one), w()]),
+    ]);
+    // equalities / assertions against constant cells
+    for cst in [zero, one, m1, r] {
+        c.push(fx(IsEq { op: EqOp::Eq, ty: Ty::N }, vec![w(), n(cst)]));
+        if t || cst == one {
+            c.push(fx(IsEq { op: EqOp::Neq, ty: Ty::N }, vec![n(cst), w()]));
+        }
+    }
+    c.extend([
+        fx(IsEq { op: EqOp::Eq, ty: Ty::N }, vec![n(one), n(one)]),
+        fx(IsEq { op: EqOp::Eq, ty: Ty::B }, vec![w(), bt(true)]),
+        fx(IsEq { op: EqOp::Neq, ty: Ty::Y }, vec![w(), by(255)]),
+        fx(AssertEq { op: EqOp::Eq, ty: Ty::N }, vec![w(), n(one)]),
+        fx(AssertEq { op: EqOp::Neq, ty: Ty::N }, vec![w(), n(zero)]),
+        fx(AssertEq { op: EqOp::Eq, ty: Ty::Y }, vec![by(7), w()]),
+    ]);
+    // comparisons and range-checked operations with constant operands
+    for (op, mask) in [
+        (CmpOp::Lt, vec![w(), n(zero)]),
+        (CmpOp::Lt, vec![w(), n(one)]),
+        (CmpOp::Lt, vec![w(), n(two)]),
+        (CmpOp::Lt, vec![n(one), w()]),
+        (CmpOp::Lt, vec![w(), n(f(255))]),
+        (CmpOp::Leq, vec![w(), n(one)]),
+        (CmpOp::Geq, vec![n(two), w()]),
+        (CmpOp::Gt, vec![w(), n(zero)]),
+        (CmpOp::Leq, vec![n(one), n(one)]),
+    ] {
+        c.push(fx(Cmp { op, n: 8 }, mask));
+    }
+    c.extend([
+        fx(StdLowerThan(8), vec![w(), n(two)]),
+        fx(StdLowerThan(8), vec![n(one), w()]),
+        fx(Bitwise { op: BinOp::And, n: 8 }, vec![w(), n(one)]),
+        fx(Bitwise { op: BinOp::Xor, n: 8 }, vec![w(), n(f(255))]),
+        fx(Bnot(8), vec![n(one)]),
+        fx(ToBits { nb: Some(8), canon: true, be: false }, vec![n(f(255))]),
+        fx(ToBytes { nb: Some(2), be: false }, vec![n(one)]),
+        fx(DivRem { d: b(7), bound: Some(b(100)) }, vec![n(f(100))]),
+        fx(AssertLower(b(256)), vec![n(f(255))]),
+        fx(AssertLower(b(2)), vec![n(one)]),
+        fx(BoundedOf(8), vec![n(one)]),
+        fx(CmpFixed { op: CmpOp::Lt, n: 8, c: f(2) }, vec![n(one)]),
+    ]);
+    // boolean logic and conversions on constant cells
+    c.extend([
+        fx(Bin { op: BinOp::And, n: 3 }, vec![w(), bt(true), bt(true)]),
+        fx(Bin { op: BinOp::Or, n: 3 }, vec![w(), bt(false), bt(false)]),
+        fx(Bin { op: BinOp::Xor, n: 2 }, vec![bt(true), w()]),
+        fx(Bin { op: BinOp::And, n: 2 }, vec![bt(true), bt(true)]),
+        fx(Not, vec![bt(true)]),
+        fx(Convert { from: Ty::B, to: Ty::N }, vec![bt(true)]),
+        fx(Convert { from: Ty::N, to: Ty::B }, vec![n(one)]),
+        fx(Convert { from: Ty::N, to: Ty::Y }, vec![n(f(255))]),
+        fx(Convert { from: Ty::Y, to: Ty::N }, vec![by(255)]),
+        fx(FromBits { n: 4, be: false }, vec![bt(true), w(), bt(true), w()]),
+        fx(FromBytes { n: 2, be: false }, vec![by(255), w()]),
+    ]);
+    if t {
+        for cst in [zero, one, m1, two, r] {
+            c.push(fx(Sub, vec![n(cst), w()]));
+            c.push(fx(Add, vec![w(), n(cst)]));
+            c.push(fx(Div, vec![n(cst), w()]));
+            c.push(fx(Mul(Some(-F::ONE)), vec![w(), n(cst)]));
+            c.push(fx(Select(Ty::N), vec![w(), n(cst), w()]));
+            c.push(fx(AddAndMul([f(2), f(3), f(5), f(7), f(11)]), vec![n(cst), n(cst), w()]));
+        }
+    }
+}
+
+/// (B) short compositions: a conversion / range-checked assignment records a bound that a later
+/// operation may rely on (the native gadget caches "already constrained" facts per cell)
+fn composition_entries(t: bool, c: &mut Vec<Kind>) {
+    use Kind::Chain;
+    let al = |x: u64| Step::AssertLower(b(x));
+    let cf = |op: CmpOp, n: usize, x: u64| Step::CmpFixed { op, n, c: f(x) };
+    let mut push = |src: Src, steps: Vec<Step>| c.push(Chain { src, steps });
+    // byte -> native, then a check against 254..257
+    for x in [254u64, 255, 256, 257] {
+        push(Src::Byte, vec![al(x)]);
+        push(Src::Byte, vec![cf(CmpOp::Lt, 8, x)]);
+    }
+    push(Src::Byte, vec![cf(CmpOp::Leq, 8, 254)]);
+    push(Src::Byte, vec![cf(CmpOp::Leq, 8, 255)]);
+    push(Src::Byte, vec![cf(CmpOp::Geq, 8, 255)]);
+    push(Src::Byte, vec![cf(CmpOp::Gt, 8, 254)]);
+    for k in [7usize, 8, 9] {
+        push(Src::Byte, vec![Step::BoundedOf(k)]);
+    }
+    push(Src::Byte, vec![Step::ToByte]);
+    push(Src::Byte, vec![al(256), al(255)]);
+    push(Src::Byte, vec![al(257), cf(CmpOp::Lt, 8, 255)]);
+    push(Src::Byte, vec![Step::BoundedOf(8), al(255)]);
+    // bit -> native, then range checks with bound 1, 2
+    push(Src::Bit, vec![al(1)]);
+    push(Src::Bit, vec![al(2)]);
+    push(Src::Bit, vec![cf(CmpOp::Lt, 1, 1)]);
+    push(Src::Bit, vec![Step::BoundedOf(1)]);
+    push(Src::Bit, vec![Step::ToBit]);
+    push(Src::Bit, vec![Step::ToByte]);
+    // range-checked assignment, then comparisons against b-1, b, b+1
+    for (bound, nbits) in [(100u64, 7usize), (256, 8)] {
+        for x in [bound - 1, bound, bound + 1] {
+            push(Src::AssignLower(b(bound)), vec![cf(CmpOp::Lt, nbits, x)]);
+            push(Src::AssignLower(b(bound)), vec![al(x)]);
+        }
+    }
+    push(Src::AssignLower(b(256)), vec![Step::ToByte]);
+    push(Src::AssignLower(b(257)), vec![Step::ToByte]);
+    push(Src::AssignLower(b(255)), vec![Step::ToByte]);
+    push(Src::AssignLower(b(3)), vec![Step::ToBit]);
+    push(Src::AssignLower(b(2)), vec![Step::ToBit]);
+    push(Src::AssignLower(b(100)), vec![Step::BoundedOf(6)]);
+    // to bytes, back to a native, then a comparison
+    push(Src::BytesRoundTrip(2), vec![cf(CmpOp::Lt, 16, 65535)]);
+    push(Src::BytesRoundTrip(2), vec![al(65535)]);
+    push(Src::BytesRoundTrip(2), vec![al(65536)]);
+    push(Src::BytesRoundTrip(2), vec![Step::BoundedOf(16)]);
+    push(Src::BytesRoundTrip(1), vec![Step::ToByte]);
+    push(Src::BytesRoundTrip(1), vec![al(255)]);
+    push(Src::BytesRoundTrip(1), vec![cf(CmpOp::Lt, 8, 255)]);
+    // the same native value range-checked twice (the second check may hit the cache)
+    for (x, y) in [(256u64, 255u64), (255, 256), (256, 100), (100, 256), (257, 256), (256, 257), (100, 100), (2, 1), (1, 2)] {
+        push(Src::Native, vec![al(x), al(y)]);
+    }
+    push(Src::Native, vec![al(257), Step::ToByte]);
+    push(Src::Native, vec![al(256), Step::ToByte]);
+    push(Src::Native, vec![al(255), Step::ToByte]);
+    push(Src::Native, vec![al(3), Step::ToBit]);
+    push(Src::Native, vec![al(2), Step::ToBit]);
+    push(Src::Native, vec![Step::BoundedOf(8), al(255)]);
+    push(Src::Native, vec![Step::BoundedOf(9), Step::ToByte]);
+    push(Src::Native, vec![Step::BoundedOf(8), Step::ToByte]);
+    push(Src::Native, vec![al(256), cf(CmpOp::Lt, 8, 255)]);
+    push(Src::Native, vec![al(255), cf(CmpOp::Lt, 8, 255)]);
+    push(Src::Native, vec![al(100), cf(CmpOp::Lt, 8, 100)]);
+    push(Src::Native, vec![Step::ToByte, al(255)]);
+    push(Src::Native, vec![Step::ToByte, cf(CmpOp::Lt, 8, 255)]);
+    push(Src::Native, vec![Step::ToBit, al(1)]);
+    push(Src::Native, vec![Step::ToBit, Step::ToByte]);
+    if t {
+        for x in [1u64, 2, 128, 129, 65535, 65536] {
+            push(Src::Native, vec![al(x + 1), al(x)]);
+            push(Src::Native, vec![al(x), al(x + 1)]);
+            push(Src::AssignLower(b(x + 1)), vec![al(x)]);
+        }
+        push(Src::Native, vec![al(256), al(255), Step::ToByte]);
+        push(Src::Byte, vec![Step::ToByte, al(255)]);
+        push(Src::Byte, vec![cf(CmpOp::Lt, 8, 255), al(255)]);
+    }
 }
 
 // ---------------------------------------------------------------------------------------------
@@ -663,6 +899,71 @@ fn inputs_pool(kind: &Kind, thorough: bool, rng: &mut ChaCha8Rng) -> (Vec<Vec<V>
             }
             cap_override = Some(if thorough { m + 2 } else { 5 });
             lens.into_iter().map(|l| vec_elems(rng, *t, l)).collect()
+        }
+        Fixed { inner, consts } => {
+            // witness operands of the inner operation's classes, plus values next to the constants
+            let (full, _) = inputs_pool(inner, thorough, rng);
+            let mut v: Vec<Vec<V>> = vec![];
+            let n_w = consts.iter().filter(|c| c.is_none()).count();
+            for c in consts.iter().flatten() {
+                if let V::N(c) = c {
+                    for d in [*c, *c + F::ONE, *c - F::ONE] {
+                        let tys: Vec<Ty> = inner.shape().unwrap().into_iter().zip(consts).filter(|(_, k)| k.is_none()).map(|(t, _)| t).collect();
+                        if tys.iter().all(|t| *t == Ty::N) && n_w > 0 {
+                            v.push(vec![vn(d); n_w]);
+                        }
+                    }
+                }
+            }
+            for x in full {
+                if x.len() == consts.len() {
+                    v.push(x.into_iter().zip(consts).filter(|(_, k)| k.is_none()).map(|(x, _)| x).collect());
+                }
+            }
+            v
+        }
+        Chain { src, steps } => {
+            let mut bounds: Vec<BigUint> = steps.iter().flat_map(|s| s.bounds()).collect();
+            match src {
+                Src::AssignLower(x) => bounds.insert(0, x.clone()),
+                Src::BytesRoundTrip(nb) => bounds.push(two_pow(8 * nb)),
+                _ => {}
+            }
+            cap_override = Some(if thorough { 20 } else { 10 });
+            match src {
+                Src::Bit => vec![vec![V::B(false)], vec![V::B(true)]],
+                Src::Byte => {
+                    let mut ys: Vec<u8> = vec![255, 254, 0];
+                    for x in &bounds {
+                        for d in [x.clone(), x + b(1)] {
+                            if d >= b(1) && d <= b(256) {
+                                ys.push((d - b(1)).to_u64_digits().first().copied().unwrap_or(0) as u8);
+                            }
+                        }
+                    }
+                    ys.extend([1, 128, 253, rng.gen()]);
+                    ys.into_iter().map(|y| vec![V::Y(y)]).collect()
+                }
+                _ => {
+                    let mut xs: Vec<F> = vec![];
+                    for x in &bounds {
+                        if *x >= b(1) {
+                            xs.push(fe(&(x - b(1))));
+                        }
+                        xs.push(fe(x));
+                    }
+                    xs.push(F::ZERO);
+                    for x in &bounds {
+                        xs.push(fe(&(x + b(1))));
+                    }
+                    xs.extend([F::ONE, -F::ONE, fe(&half_up())]);
+                    let smallest = bounds.iter().min().cloned().unwrap_or(b(256));
+                    for _ in 0..nr {
+                        xs.push(rnd_below(rng, &smallest));
+                    }
+                    one_n(xs)
+                }
+            }
         }
         MapGet | MapInsert => {
             let ks: Vec<F> = (0..3).map(|_| rnd(rng)).collect();
